@@ -278,8 +278,8 @@ func schedule(me int, isChoice bool) {
 		return
 	}
 	ex.Steps++
-	if cfg.MaxSteps > 0 && ex.Steps > cfg.MaxSteps {
-		spin := true
+	if cfg.MaxSteps > 0 && (ex.Steps > cfg.MaxSteps || forceHorizon) {
+		spin := !forceHorizon
 		for _, t := range threads {
 			if t.state != stDone && t.yields < 100 {
 				spin = false
@@ -396,6 +396,9 @@ func finishRun(me int) {
 	}
 }
 
+// forceHorizon is set by Point's fast path when one thread alone has exceeded the step horizon.
+var forceHorizon bool
+
 type region struct {
 	base uintptr
 	size uintptr
@@ -471,8 +474,14 @@ func Point(kind uint8, addr unsafe.Pointer) {
 		}
 	}
 	if !isChoice && enabledThread(t) {
-		t.waitKind = 0
-		return
+		// operations that are not scheduling choices do not reach schedule(); a thread that loops over
+		// such operations only (a spin on locations nobody else touches) must still meet the horizon
+		if cfg.MaxSteps > 0 && t.steps > 8*cfg.MaxSteps {
+			forceHorizon = true
+		} else {
+			t.waitKind = 0
+			return
+		}
 	}
 	schedule(me, isChoice)
 }
@@ -525,6 +534,7 @@ func threadExit(t *thread) {
 func Run(c *Config, fns []func()) *Exec {
 	cfg = c
 	ex = &Exec{PrunedAt: -1}
+	forceHorizon = false
 	pos = 0
 	pruned = false
 	abort = false
